@@ -171,6 +171,23 @@ pub fn gen_case(rng: &mut Rng, c02: bool, thorough: bool) -> CrashCase {
       weights,
     };
     let mut ops = gen_ops(rng, &cfg, &p);
+    if s > 0 && rng.chance(1, 2) {
+      // a session on a disk a crash left behind often starts by cleaning up:
+      // this makes the next manifest shorter than what an interrupted commit
+      // may have left in its temp file
+      let head: Vec<Op> = match rng.below(3) {
+        0 => vec![Op::Compact],
+        1 => vec![Op::NewWriter { h: 0 }, Op::Rollback { h: 0 }, Op::Delete { h: 0, id: "d0".into() }, Op::Commit { h: 0 }],
+        _ => vec![Op::NewWriter { h: 0 }, Op::Rollback { h: 0 }, Op::DropWriter { h: 0 }, Op::Compact],
+      };
+      let mut v = head;
+      // later generated ops keep working: they re-create handle 0 when needed
+      if !matches!(v.last(), Some(Op::Compact)) {
+        v.push(Op::DropWriter { h: 0 });
+      }
+      v.extend(ops);
+      ops = v;
+    }
     // unique versions across sessions, handles numbered per session
     for op in ops.iter_mut() {
       match op {
@@ -192,9 +209,17 @@ pub fn gen_case(rng: &mut Rng, c02: bool, thorough: bool) -> CrashCase {
         4 | 5 | 6 => WalTail::Torn(rng.below(200) as u32),
         _ => WalTail::Any,
       };
+      let publishing: Vec<usize> = ops.iter().enumerate().filter(|(_, o)| matches!(o, Op::Commit { .. } | Op::Compact)).map(|(i, _)| i).collect();
       Some(CrashSpec {
-        // bias towards the end of the session (in-flight state exists there)
-        op: if rng.chance(1, 2) { ops.len().saturating_sub(1 + rng.usize(2)) } else { rng.usize(ops.len() + 1) },
+        // bias towards calls that publish a manifest and towards the end of
+        // the session (in-flight state exists there)
+        op: if !publishing.is_empty() && rng.chance(1, 3) {
+          *rng.pick(&publishing)
+        } else if rng.chance(1, 2) {
+          ops.len().saturating_sub(1 + rng.usize(2))
+        } else {
+          rng.usize(ops.len() + 1)
+        },
         prim: rng.below(40) as u32,
         seed: rng.next(),
         wal,
